@@ -68,6 +68,18 @@ fn split_text_raw(text: &str) -> Vec<String> {
         let blank = line.trim().is_empty();
         let col0 = !blank && !line.starts_with(' ') && !line.starts_with('\t');
         let closer = line.starts_with('}') || line.starts_with(')') || line.starts_with(']');
+        // `namespace a::b {` and its `}  // a::b` wrap the whole file (C++ `--namespace`): items of their own,
+        // not part of the first and last declaration
+        let ns_open = line.starts_with("namespace ") && line.trim_end().ends_with('{');
+        let ns_close = line.starts_with("}  // ") && !line.contains(';');
+        if ns_open || ns_close {
+            if !cur.trim().is_empty() {
+                items.push(std::mem::take(&mut cur));
+            }
+            items.push(line.to_string());
+            prev_blank = true;
+            continue;
+        }
         if col0 && prev_blank && !closer && !cur.trim().is_empty() {
             items.push(std::mem::take(&mut cur));
         }
@@ -88,7 +100,7 @@ fn split_text_raw(text: &str) -> Vec<String> {
                 out.push(l.to_string());
             }
         } else {
-            out.push(it.trim_end().to_string());
+            out.push(it.trim_matches(|c: char| c == '\n' || c == '\r').trim_end().to_string());
         }
     }
     out
@@ -365,3 +377,4 @@ pub fn exclusion_diff_files(
     }
     (stats, None)
 }
+
